@@ -183,6 +183,14 @@ func findInlineNode(file *ast.File, comment *ast.Comment, fset *token.FileSet) (
 		return file.Decls[i].End() > commentPos
 	})
 
+	// A comment after the last token of a declaration lies behind that declaration's end:
+	// it trails the declaration that ends on its line (e.g. `var x = T{} // @ignore CODE`)
+	if idx > 0 && fset.PositionFor(file.Decls[idx-1].End(), false).Line == commentLine {
+		if fileContent := fset.File(commentPos); fileContent != nil {
+			return fileContent.LineStart(commentLine), comment.End(), true
+		}
+	}
+
 	// If no declaration found, not inline
 	if idx >= len(file.Decls) {
 		return 0, 0, false
